@@ -106,8 +106,8 @@ def main():
         # controlled completion order: block until the scheduler releases us
         import sched
         sched.client_wait(spec['sched_sock'],
-                          {'pid': os.getpid(), 'verdict': v,
-                           'ntoks': len(toks)})
+                          {'pid': os.getpid(), 'ppid': os.getppid(),
+                           'verdict': v, 'ntoks': len(toks)})
     sys.stdout.write(beh.get('out', ''))
     sys.stderr.write(beh.get('err', ''))
     sys.stdout.flush()
